@@ -191,60 +191,80 @@ pub struct TreeGen {
 impl TreeGen {
     /// all trees within the bounds, simplest (fewest nodes) first
     pub fn all(&self) -> Vec<TSpec> {
-        let mut out = self.rec(self.max_depth, self.max_nodes);
+        let mut memo: std::collections::HashMap<(usize, usize), std::rc::Rc<Vec<TSpec>>> = Default::default();
+        let mut out: Vec<TSpec> = self.rec(self.max_depth, self.max_nodes, &mut memo).as_ref().clone();
         out.sort_by_key(|t| t.n_nodes());
         out
     }
 
-    fn rec(&self, depth: usize, budget: usize) -> Vec<TSpec> {
+    /// trees of depth <= depth with at most `budget` nodes
+    fn rec(
+        &self,
+        depth: usize,
+        budget: usize,
+        memo: &mut std::collections::HashMap<(usize, usize), std::rc::Rc<Vec<TSpec>>>,
+    ) -> std::rc::Rc<Vec<TSpec>> {
+        if let Some(v) = memo.get(&(depth, budget)) {
+            return v.clone();
+        }
         let mut out = vec![];
-        if budget == 0 {
-            return out;
-        }
-        for t in &self.terms {
-            out.push(TSpec::Leaf(t.clone()));
-        }
-        if depth == 0 || budget < 2 {
-            return out;
-        }
-        // child slot combinations with total node budget
-        let combos = self.slots(self.k, depth - 1, budget - 1);
-        for p in &self.preds {
-            for c in &combos {
-                if c.iter().all(|x| x.is_none()) {
-                    continue;
+        if budget >= 1 {
+            for t in &self.terms {
+                out.push(TSpec::Leaf(t.clone()));
+            }
+            if depth >= 1 && budget >= 2 {
+                let combos = self.slots(self.k, depth - 1, budget - 1, memo);
+                for p in &self.preds {
+                    for c in &combos {
+                        if c.iter().all(|x| x.is_none()) {
+                            continue;
+                        }
+                        if !self.partial && c.iter().any(|x| x.is_none()) {
+                            continue;
+                        }
+                        out.push(TSpec::Dec(p.clone(), c.clone()));
+                    }
                 }
-                if !self.partial && c.iter().any(|x| x.is_none()) {
-                    continue;
-                }
-                out.push(TSpec::Dec(p.clone(), c.clone()));
             }
         }
-        out
+        let rc = std::rc::Rc::new(out);
+        memo.insert((depth, budget), rc.clone());
+        rc
     }
 
-    fn slots(&self, k: usize, depth: usize, budget: usize) -> Vec<Vec<Option<TSpec>>> {
+    fn slots(
+        &self,
+        k: usize,
+        depth: usize,
+        budget: usize,
+        memo: &mut std::collections::HashMap<(usize, usize), std::rc::Rc<Vec<TSpec>>>,
+    ) -> Vec<Vec<Option<TSpec>>> {
         if k == 0 {
             return vec![vec![]];
         }
         let mut out = vec![];
-        // first slot: None or a subtree using b nodes
-        let rest_none = self.slots(k - 1, depth, budget);
-        for r in &rest_none {
+        for r in self.slots(k - 1, depth, budget, memo) {
             let mut v = vec![None];
-            v.extend(r.iter().cloned());
+            v.extend(r.into_iter());
             out.push(v);
         }
-        let subs = self.rec(depth, budget);
-        for s in subs {
-            let used = s.n_nodes();
+        let subs = self.rec(depth, budget, memo);
+        // group by size so that the remainder is computed once per size
+        let mut by_size: std::collections::BTreeMap<usize, Vec<&TSpec>> = Default::default();
+        for s in subs.iter() {
+            by_size.entry(s.n_nodes()).or_default().push(s);
+        }
+        for (used, group) in by_size {
             if used > budget {
                 continue;
             }
-            for r in self.slots(k - 1, depth, budget - used) {
-                let mut v = vec![Some(s.clone())];
-                v.extend(r.into_iter());
-                out.push(v);
+            let rest = self.slots(k - 1, depth, budget - used, memo);
+            for s in group {
+                for r in &rest {
+                    let mut v = vec![Some(s.clone())];
+                    v.extend(r.iter().cloned());
+                    out.push(v);
+                }
             }
         }
         out
